@@ -13,5 +13,15 @@ MCNext ==
   \/ Tick /\ last' = <<"!tick", "", -1>>
   \/ Terminal /\ UNCHANGED last
 MCSpec == MCInit /\ [][MCNext]_<<vars, last>>
+\* behaviours realizable under the baton: internal steps are urgent (they complete before anybody else
+\* moves).  Used for behaviour export only; the exhaustive check explores MCSpec, a superset.
+MCNextU ==
+  IF \E a \in Actors : pc[a] \in InternalPcs
+    THEN \E a \in Actors : Internal(a) /\ last' = <<"~", a, -1>>
+    ELSE \/ \E a \in Actors : Step(a) /\ last' = <<a, pc[a], Obs(a)>>
+         \/ \E a \in Actors : Cancel(a) /\ last' = <<"!cancel", a, -1>>
+         \/ Tick /\ last' = <<"!tick", "", -1>>
+         \/ Terminal /\ UNCHANGED last
+MCSpecU == MCInit /\ [][MCNextU]_<<vars, last>>
 View == vars
 =============================================================================
